@@ -55,7 +55,7 @@ IDENT = Motion()
 
 def _plane3_exact(p1, p2, p3):
     '''The orientation rule in the arithmetic of the card itself: when every
-    coordinate is a short decimal number (at most fourteen significant
+    coordinate is a short decimal number (at most fifteen significant
     digits, as a user types them: repr() of the double gives it back), the cross product and D are computed with rational numbers
     and "zero" means zero - no tolerance is involved.  Returns None for
     coordinates that are not short decimals (computed values printed with
@@ -69,7 +69,7 @@ def _plane3_exact(p1, p2, p3):
             val = float(val)
             text = repr(val)
             mant = text.lower().split('e')[0]
-            if len(mant.replace('-', '').replace('.', '').strip('0')) > 14:
+            if len(mant.replace('-', '').replace('.', '').strip('0')) > 15:
                 # a computed value: what was typed is not recoverable
                 return None
             row.append(Fraction(text))
@@ -105,29 +105,40 @@ def plane3_params(pts):
     exact = _plane3_exact(p1, p2, p3)
     if exact is not None:
         return exact
-    nrm = np.cross(p2 - p1, p3 - p1)
-    length = np.linalg.norm(nrm)
-    nrm = nrm / length
-    dval = float(nrm @ p1)
-    # "zero" means zero in the arithmetic of the card (decimal numbers): the
-    # computed values carry a rounding error that grows as the triangle gets
-    # thinner and as the points get farther from the origin
-    size = max(np.linalg.norm(p) for p in (p1, p2, p3))
-    l12, l13 = np.linalg.norm(p2 - p1), np.linalg.norm(p3 - p1)
-    # (three units of the last place per unit of conditioning: well above
-    # the rounding error, which stays below one, and well below anything a
-    # card can mean by a number that is not zero)
-    eps = 3e-16 * max(1.0, (l12 * l13 + size * (l12 + l13)) / length)
-    deps = eps * max(1.0, size)
+    # Numbers of more than fifteen digits are the result of a computation:
+    # they carry an uncertainty of their own, a few units in the last place
+    # each.  D, C, B, A are evaluated exactly on the doubles and "zero" means
+    # "within the first-order effect of four such units on every coordinate"
+    # (the generators keep what they decide either below half a unit or
+    # above sixty).
+    from fractions import Fraction
+    crd = [Fraction(float(v)) for pnt in (p1, p2, p3) for v in pnt]
+
+    def normal(c):
+        d12 = [c[3 + k] - c[k] for k in range(3)]
+        d13 = [c[6 + k] - c[k] for k in range(3)]
+        return [d12[1] * d13[2] - d12[2] * d13[1],
+                d12[2] * d13[0] - d12[0] * d13[2],
+                d12[0] * d13[1] - d12[1] * d13[0]]
+    funcs = [lambda c: sum(n * x for n, x in zip(normal(c), c[:3])),
+             lambda c: normal(c)[2], lambda c: normal(c)[1],
+             lambda c: normal(c)[0]]
     flip = False
-    if abs(dval) > max(deps, 1e-14):
-        flip = dval < 0           # origin must give A*0+..-D < 0  => D > 0
-    elif abs(nrm[2]) > max(eps, 1e-14):
-        flip = nrm[2] < 0
-    elif abs(nrm[1]) > max(eps, 1e-14):
-        flip = nrm[1] < 0
-    else:
-        flip = nrm[0] < 0
+    for func in funcs:
+        val = func(crd)
+        band = 0
+        for k, x in enumerate(crd):
+            if x:
+                moved = list(crd)
+                moved[k] = x + 1
+                band += abs(x) * abs(func(moved) - val)
+        if abs(val) > band * Fraction(4, 2**52):
+            flip = val < 0
+            break
+    exact_n = normal(crd)
+    length = math.sqrt(float(sum(n * n for n in exact_n)))
+    nrm = np.array([float(n) / length for n in exact_n])
+    dval = float(funcs[0](crd)) / length
     if flip:
         nrm, dval = -nrm, -dval
     return nrm[0], nrm[1], nrm[2], dval
